@@ -734,7 +734,27 @@ def _add_all(draw, case, mod, sim, sources, all_forms: bool, unique_helpers: boo
             # `<top>.a.b.__all__` reads attributes of packages: `a` must be fully imported, so it must not be
             # this module or one of its ancestors (which may still be initialising)
             shares_branch = src != "" and path != "" and src.split(".")[0] == path.split(".")[0]
-            if src != "" and (shares_branch or draw(st.booleans())):
+            # names used to splice an `__all__` are bound exactly once in the module (documented forms): if the body
+            # already binds the module's name some other way, fall back to a helper name
+            if src != "" and base_name(src) in me["ns"]:
+                if shares_branch:
+                    form = form.split("-")[0]
+                    pre_len = None
+                else:
+                    pre.append({"t": "import", "mod": src, "as": None})
+                    ref = "$TOP" + (f".{src}" if src else "") + ".__all__"
+                    pre_len = len(pre)
+            else:
+                pre_len = None
+            if pre_len is not None:
+                pass
+            elif not form.endswith("-attr"):
+                helper = (base_name(src) or "top") + "_all"
+                if unique_helpers or helper in me["ns"]:
+                    helper += f"_i{index}"
+                pre.append({"t": "from", "mod": src, "level": level, "names": [["__all__", helper]]})
+                ref = helper
+            elif src != "" and (shares_branch or draw(st.booleans())):
                 # module bound by `from <pkg> import <mod>`
                 pkg = parent_path(src)
                 lvl = _pick_level(draw, path, mod["pkg"], pkg)
@@ -746,7 +766,9 @@ def _add_all(draw, case, mod, sim, sources, all_forms: bool, unique_helpers: boo
                 pre.append({"t": "import", "mod": src, "as": None})
                 ref = "$TOP" + (f".{src}" if src else "") + ".__all__"
         else:
-            helper = (base_name(src) or "top") + "_all" + (f"_i{index}" if unique_helpers else "")
+            helper = (base_name(src) or "top") + "_all"
+            if unique_helpers or helper in me["ns"]:
+                helper += f"_i{index}"
             pre.append({"t": "from", "mod": src, "level": level, "names": [["__all__", helper]]})
             ref = helper
         same_type = src_seq.get(src, "list") == seq
